@@ -41,7 +41,7 @@ Definition corr_ok (c : c17case) : bool :=
               let k := match hjin with Some k => Z.to_nat k | None => length rest end in
               beq (hijack_in hb hcs k) inb
               && (if late then
-                    match hijack_late (keep_hijacked cfg) src hb hcs k with
+                    match hijack_late (reduce_mem cfg) (keep_hijacked cfg) src hb hcs k with
                     | LateAll bs => beq bs lateb && negb latepanic
                     | LatePanic bs => beq bs lateb && latepanic
                     | LateClosed => true
